@@ -6,8 +6,11 @@
 (* them, is computed exactly with TLC integers).                           *)
 (*                                                                         *)
 (*   kahan_add(sum, x, c):  y = x - c;  t = sum + y;  c' = (t - sum) - y   *)
-(*   value = sum + c        (as in the code; the textbook subtracts c)     *)
-(*   reg += other  ==  kahan_add(other.sum); kahan_add(other.c)            *)
+(*   the register represents sum - c:   value = sum - c                    *)
+(*   reg += other: the register with the smaller |sum| is accumulated into *)
+(*   the one with the larger |sum| (Kahan's error term is exact only while *)
+(*   the running sum dominates the addend):                                *)
+(*        kahan_add(small.sum); kahan_add(-small.c)                        *)
 (*                                                                         *)
 (* Ghost state: `exact` = the real sum of everything added, `abs` = the    *)
 (* sum of magnitudes.  Property C08 on the model: |value - exact| <= C u   *)
@@ -39,8 +42,11 @@ Reg0 == [s |-> 0, c |-> 0]
 KahanAdd(k, x) == LET y == FSub(x, k.c)
                       t == FAdd(k.s, y)
                   IN [s |-> t, c |-> FSub(FSub(t, k.s), y)]
-Value(k)      == FAdd(k.s, k.c)
-Merge(k, o)   == KahanAdd(KahanAdd(k, o.s), o.c)
-\* the textbook variant, for comparison
-ValueTextbook(k) == FSub(k.s, k.c)
+Value(k)      == FSub(k.s, k.c)
+Into(big, small) == KahanAdd(KahanAdd(big, small.s), -small.c)
+Merge(k, o)   == IF Abs(o.s) > Abs(k.s) THEN Into(o, k) ELSE Into(k, o)
+\* the pinned code before the fix (kept for reference; MC_Kahan with this variant and long right
+\* folds in the conformance streams exposed the defect)
+ValuePinned(k)    == FAdd(k.s, k.c)
+MergePinned(k, o) == KahanAdd(KahanAdd(k, o.s), o.c)
 =============================================================================
